@@ -330,7 +330,10 @@ def _check_once(claim, hyps, region_conds=(), timeout_ms=20000, want_model=True)
     if claim.node == ('b', True):
         return 'proved', 'trivial', None
     Z = Z3Real()
-    goal = [Z.tr(h) for h in hyps] + [Z.icond(c) for c in region_conds] + [z3.Not(Z.tr(claim))]
+    goal = [Z.tr(h) for h in hyps] + [z3.Not(Z.tr(claim))]
+    if Z.iatoms:
+        used = set(Z.iatoms)
+        goal += [Z.icond(c) for c in region_conds if c.atoms() & used]
     t0 = time.time()
     STATS['z3_calls'] += 1
     s = z3.Tactic('qfnra-nlsat').solver() if not Z.iatoms and False else z3.Solver()
